@@ -204,7 +204,7 @@ def other_commands_injected(R, g, fails, known, stats, errnos):
         before = sb.snapshot()
         ids0 = hist_ids(sb)
         rc, o, e, trace = inject.strace_run(sb, argv)
-        evs = inject.mutating_events(trace, sb.root, classes=("user", "state"))
+        evs = inject.mutating_events(trace, sb.root, classes=("user", "state", "log"))
         after0 = sb.snapshot()
         sb.cleanup()
         if rc != 0 or after0 != full_s:
@@ -280,7 +280,7 @@ def run(R):
         full_s, content_s = al.sha_dict(full), al.sha_dict(content_only)
         # recording run
         rc, o, e, trace = inject.strace_run(sb, ["--no-auto-init", "-y", "apply"])
-        evs = inject.mutating_events(trace, sb.root, classes=("user", "state"))
+        evs = inject.mutating_events(trace, sb.root, classes=("user", "state", "log"))
         after0 = sb.snapshot()
         sb.cleanup()
         if rc != 0 or after0 != full_s:
@@ -311,6 +311,8 @@ def run(R):
             prev = op
             user_idx.append(k)
         for j, ev in enumerate(evs):
+            if quick and ev.cls == "log" and j % 4:
+                continue            # the log is written in several small writes per line: every fourth one in the quick tier
             stats["events_by_class"][ev.cls] = stats["events_by_class"].get(ev.cls, 0) + 1
             for en in errnos:
                 sb2, plan2 = fresh(tree, search, replace)
